@@ -19,13 +19,13 @@ type Ctx struct {
 	Tier string
 	Dump string
 
-	eps *EntryPoints
-	eff *Eff
-	streamOracle func(fn *ssa.Function, v ssa.Value) bool
-	minLenMemo   map[string][2]int64
-	validators   map[*ssa.Function]*ssa.Function
-	ctorOnlyMemo map[string]bool
-	markersSeen  map[int64]bool
+	eps             *EntryPoints
+	eff             *Eff
+	streamOracle    func(fn *ssa.Function, v ssa.Value) bool
+	minLenMemo      map[string][2]int64
+	validators      map[*ssa.Function]*ssa.Function
+	ctorOnlyMemo    map[string]bool
+	markersSeen     map[int64]bool
 	genericEmitters int
 }
 
